@@ -181,7 +181,7 @@ def run(ctx: Ctx) -> int:
              {"k": "call", "f": "size", "args": [jq]}, {"k": "bin", "op": "==", "l": sel("a"), "r": sel("b")},
              {"k": "cond", "c": {"k": "has", "x": jq, "f": [97]}, "a": sel("a"), "b": L("string", "none")}]
     runs = []
-    for j in range(150 if q else 4000):
+    for j in range(150 if q else 12000):
         docs = []
         for _ in range(rng.randint(0, 5)):
             k = rng.random()
